@@ -64,6 +64,12 @@ template <class V, class E> Outcome check_node(const V& v, const E& e, const RAr
     };
     if (!lazy.has || lazy.bad_shape) return Outcome::bad("wrong", "view not observable" + where);
     check_type(meta::as_value_v<V_>, lazy, "view type");
+    if (c.op == "pt") {   // type-only case: static traits of the view type against this run-time object, nothing is evaluated
+        nmc::count("transitions", 1); nmc::count("traces_validated", 1); if (known) nmc::count("nodes_with_static_knowledge", 1);
+        if (lazy.shape != r.shape && err.empty()) err = "view shape " + nmc::str(lazy.shape) + " differs from the model's " + nmc::str(r.shape);
+        if (!err.empty()) return Outcome::bad("wrong", err + where, true, lazy.hash());
+        return Outcome::ok(known && r.size() > 1, lazy.hash() ^ nmc::mix((uint64_t)depth + (known ? 29 : 3)));
+    }
     reset_hooks();
     const auto ev = na::eval(v); Obs o = nmc::observe(ev);
     if (g_capacity) return Outcome::bad("hook", "while evaluating: " + g_first_bad + where, true, lazy.hash());
